@@ -1033,6 +1033,16 @@ func (c *Client) DialToSMTPClientWithContext(ctxDial context.Context) (*smtp.Cli
 		return nil, err
 	}
 
+	// The deadline of the dial context only covers the connection establishment. Bound the SMTP
+	// dialogue that follows (greeting, HELO/EHLO, STARTTLS, AUTH) as well, so that a server that
+	// stops responding cannot block the dial forever.
+	if deadline, ok := ctx.Deadline(); ok {
+		if err = connection.SetDeadline(deadline); err != nil {
+			_ = connection.Close()
+			return nil, fmt.Errorf("failed to set connection deadline: %w", err)
+		}
+	}
+
 	client, err := smtp.NewClient(connection, c.host)
 	if err != nil {
 		return nil, err
@@ -1060,6 +1070,12 @@ func (c *Client) DialToSMTPClientWithContext(ctxDial context.Context) (*smtp.Cli
 	if err = c.auth(client, isEncrypted); err != nil {
 		_ = client.Close()
 		return nil, err
+	}
+
+	// the dial is complete, the deadline is renewed by every send or reset operation
+	if err = connection.SetDeadline(time.Time{}); err != nil {
+		_ = client.Close()
+		return nil, fmt.Errorf("failed to reset connection deadline: %w", err)
 	}
 
 	return client, nil
